@@ -3,6 +3,7 @@ package exec
 import (
 	"fmt"
 	"go/types"
+	"strings"
 
 	"golang.org/x/tools/go/ssa"
 
@@ -379,6 +380,9 @@ func (in *interp) now() value {
 }
 
 func registerEnv(e *Engine) {
+	registerProm(e)
+	registerJSON(e)
+	registerElection(e)
 	e.reg("time.Now", func(in *interp, fr *frame, a []value) value { return in.now() })
 	e.reg("time.Since", func(in *interp, fr *frame, a []value) value {
 		n := in.now().(structure)
@@ -508,4 +512,370 @@ func (e *Engine) namedType(pkg, name string) types.Type {
 		}
 	}
 	panic("no type " + pkg + "." + name)
+}
+
+// ---------------- prometheus model (client_golang v1.12.1 contract) ----------------
+//
+// NewCounterVec/NewGaugeVec/NewHistogramVec remember name and label names; With(labels) panics
+// when the label-name set differs from the vec's or a label value is not valid UTF-8;
+// MustRegister panics on a duplicate fully-qualified name or an invalid metric / label name.
+
+type promVec struct {
+	kind  string
+	name  string
+	names []string
+}
+
+type promMetric struct{}
+
+func (promMetric) callMethod(in *interp, fr *frame, name string, args []value) value { return nil }
+
+const promPkg = "github.com/prometheus/client_golang/prometheus"
+
+func validMetricName(s string) bool {
+	if s == "" {
+		return false
+	}
+	for i, c := range s {
+		if !(c == '_' || c == ':' || (c >= 'a' && c <= 'z') || (c >= 'A' && c <= 'Z') || (i > 0 && c >= '0' && c <= '9')) {
+			return false
+		}
+	}
+	return true
+}
+
+func validLabelName(s string) bool {
+	if s == "" || strings.HasPrefix(s, "__") {
+		return false
+	}
+	for i, c := range s {
+		if !(c == '_' || (c >= 'a' && c <= 'z') || (c >= 'A' && c <= 'Z') || (i > 0 && c >= '0' && c <= '9')) {
+			return false
+		}
+	}
+	return true
+}
+
+func registerProm(e *Engine) {
+	mk := func(kind string) func(in *interp, fr *frame, a []value) value {
+		return func(in *interp, fr *frame, a []value) value {
+			opts := a[0].(structure)
+			pv := &promVec{kind: kind, name: in.cstr(opts[2])}
+			names, _ := a[1].([]value)
+			for _, n := range names {
+				pv.names = append(pv.names, in.cstr(n))
+			}
+			var v value = pv
+			return &v
+		}
+	}
+	e.reg(promPkg+".NewCounterVec", mk("counter"))
+	e.reg(promPkg+".NewGaugeVec", mk("gauge"))
+	e.reg(promPkg+".NewHistogramVec", mk("histogram"))
+	with := func(in *interp, fr *frame, a []value) value {
+		pv := (*a[0].(*value)).(*promVec)
+		m, _ := a[1].(*omap)
+		n := 0
+		if m != nil {
+			n = len(m.keys)
+		}
+		if n != len(pv.names) {
+			panic(targetPanic{msg: fmt.Sprintf("prometheus: inconsistent label cardinality for %s %q: expected %d label values but got %d", pv.kind, pv.name, len(pv.names), n)})
+		}
+		for _, want := range pv.names {
+			found := false
+			for i, k := range m.keys {
+				if in.cstr(k) == want {
+					found = true
+					// label values must be valid UTF-8
+					var ok *sym.Term
+					switch s := m.vals[i].(type) {
+					case string:
+						ok = in.ctx.Bool(validUTF8(s))
+					default:
+						ok = in.utf8Valid(in.strBytes(s))
+					}
+					if !in.r.branch(ok, "label-utf8") {
+						panic(targetPanic{msg: fmt.Sprintf("prometheus: label %s: value is not valid UTF-8 (metric %q)", want, pv.name)})
+					}
+				}
+			}
+			if !found {
+				panic(targetPanic{msg: fmt.Sprintf("prometheus: label name %q missing in label map (metric %q)", want, pv.name)})
+			}
+		}
+		return iface{t: in.eng.opaqueType("prometheus.Metric"), v: promMetric{}}
+	}
+	e.reg("(*"+promPkg+".CounterVec).With", with)
+	e.reg("(*"+promPkg+".GaugeVec).With", with)
+	e.reg("(*"+promPkg+".HistogramVec).With", with)
+}
+
+// promRegister implements Registerer.MustRegister on the default registerer.
+func (in *interp) promRegister(args []value) {
+	cs, _ := args[0].([]value)
+	for _, c := range cs {
+		ci, ok := c.(iface)
+		if !ok {
+			continue
+		}
+		p, ok := ci.v.(*value)
+		if !ok || p == nil {
+			continue
+		}
+		pv, ok := (*p).(*promVec)
+		if !ok {
+			continue
+		}
+		if in.promNames == nil {
+			in.promNames = map[string]string{}
+		}
+		if !validMetricName(pv.name) {
+			panic(targetPanic{msg: fmt.Sprintf("prometheus: %q is not a valid metric name", pv.name)})
+		}
+		seen := map[string]bool{}
+		for _, n := range pv.names {
+			if !validLabelName(n) || seen[n] {
+				panic(targetPanic{msg: fmt.Sprintf("prometheus: %q is not a valid (or is a duplicate) label name (metric %q)", n, pv.name)})
+			}
+			seen[n] = true
+		}
+		if k, dup := in.promNames[pv.name]; dup {
+			panic(targetPanic{msg: fmt.Sprintf("prometheus: duplicate metrics collector registration attempted: %q (%s, already a %s)", pv.name, pv.kind, k)})
+		}
+		in.promNames[pv.name] = pv.kind
+	}
+}
+
+// ---------------- piece strings: fmt.Sprintf with symbolic %d operands ----------------
+
+// fmtstr is a string made of literal pieces and decimal renderings of integer terms. It is
+// understood only by strings.Split (separator inside literal pieces), strconv.ParseUint and
+// string concatenation-free uses; anything else aborts the run.
+type fmtstr struct {
+	lit  []string    // len(lit) == len(num)+1
+	num  []*sym.Term // decimal pieces between the literals
+	sign []bool
+}
+
+func (in *interp) splitFmt(f *fmtstr, sep string) []value {
+	var out []value
+	cur := &fmtstr{lit: []string{""}}
+	flush := func() {
+		if len(cur.num) == 0 {
+			out = append(out, cur.lit[0])
+		} else {
+			out = append(out, cur)
+		}
+		cur = &fmtstr{lit: []string{""}}
+	}
+	for i, l := range f.lit {
+		parts := strings.Split(l, sep)
+		for j, p := range parts {
+			if j > 0 {
+				flush()
+			}
+			cur.lit[len(cur.lit)-1] += p
+		}
+		if i < len(f.num) {
+			cur.num = append(cur.num, f.num[i])
+			cur.lit = append(cur.lit, "")
+		}
+	}
+	flush()
+	return out
+}
+
+// ---------------- encoding/json model: fixed-layout injective encoding ----------------
+
+func (in *interp) encodeJSON(t types.Type, v value, out *[]*sym.Term) {
+	c := in.ctx
+	put64 := func(x *sym.Term) {
+		x = c.Resize(x, 64, false)
+		for i := 7; i >= 0; i-- {
+			*out = append(*out, c.Extract(x, i*8+7, i*8))
+		}
+	}
+	if t.String() == "time.Time" {
+		put64(v.(structure)[1].(*sym.Term))
+		return
+	}
+	switch u := t.Underlying().(type) {
+	case *types.Basic:
+		switch {
+		case u.Info()&types.IsString != 0:
+			b := in.strBytes(v)
+			put64(c.Const(64, uint64(len(b))))
+			*out = append(*out, b...)
+		case u.Info()&types.IsBoolean != 0:
+			*out = append(*out, c.Ite(v.(*sym.Term), c.Const(8, 1), c.Const(8, 0)))
+		case u.Info()&types.IsInteger != 0:
+			_, signed, _ := intInfo(u)
+			put64(c.Resize(v.(*sym.Term), 64, signed))
+		default:
+			panic(pathEnd{kind: "error", msg: "json model: unsupported basic type " + t.String()})
+		}
+	case *types.Struct:
+		s := v.(structure)
+		for i := 0; i < u.NumFields(); i++ {
+			in.encodeJSON(u.Field(i).Type(), s[i], out)
+		}
+	case *types.Pointer:
+		p := v.(*value)
+		if p == nil {
+			*out = append(*out, c.Const(8, 0))
+			return
+		}
+		*out = append(*out, c.Const(8, 1))
+		in.encodeJSON(u.Elem(), *p, out)
+	default:
+		panic(pathEnd{kind: "error", msg: "json model: unsupported type " + t.String()})
+	}
+}
+
+func (in *interp) decodeJSON(t types.Type, data []*sym.Term, pos *int) (value, bool) {
+	c := in.ctx
+	get64 := func() (*sym.Term, bool) {
+		if *pos+8 > len(data) {
+			return nil, false
+		}
+		x := data[*pos]
+		for i := 1; i < 8; i++ {
+			x = c.Concat(x, data[*pos+i])
+		}
+		*pos += 8
+		return x, true
+	}
+	if t.String() == "time.Time" {
+		x, ok := get64()
+		if !ok {
+			return nil, false
+		}
+		s := in.zero(t).(structure)
+		s[1] = x
+		return s, true
+	}
+	switch u := t.Underlying().(type) {
+	case *types.Basic:
+		switch {
+		case u.Info()&types.IsString != 0:
+			n, ok := get64()
+			if !ok || !n.IsConst() || *pos+int(n.K) > len(data) {
+				return nil, false
+			}
+			b := data[*pos : *pos+int(n.K)]
+			*pos += int(n.K)
+			return mkStr(b), true
+		case u.Info()&types.IsBoolean != 0:
+			if *pos >= len(data) {
+				return nil, false
+			}
+			x := data[*pos]
+			*pos++
+			return c.Eq(x, c.Const(8, 1)), true
+		case u.Info()&types.IsInteger != 0:
+			x, ok := get64()
+			if !ok {
+				return nil, false
+			}
+			w, _, _ := intInfo(u)
+			return c.Resize(x, w, false), true
+		}
+	case *types.Struct:
+		s := make(structure, u.NumFields())
+		for i := 0; i < u.NumFields(); i++ {
+			f, ok := in.decodeJSON(u.Field(i).Type(), data, pos)
+			if !ok {
+				return nil, false
+			}
+			s[i] = f
+		}
+		return s, true
+	case *types.Pointer:
+		if *pos >= len(data) {
+			return nil, false
+		}
+		tag := data[*pos]
+		*pos++
+		if tag.IsConst() && tag.K == 0 {
+			return (*value)(nil), true
+		}
+		e, ok := in.decodeJSON(u.Elem(), data, pos)
+		if !ok {
+			return nil, false
+		}
+		return &e, true
+	}
+	return nil, false
+}
+
+func registerJSON(e *Engine) {
+	e.reg("encoding/json.Marshal", func(in *interp, fr *frame, a []value) value {
+		v := a[0].(iface)
+		var out []*sym.Term
+		in.encodeJSON(v.t, v.v, &out)
+		return tuple{termsToSlice(out), iface{}}
+	})
+	e.reg("encoding/json.Unmarshal", func(in *interp, fr *frame, a []value) value {
+		data, _ := a[0].([]value)
+		tgt := a[1].(iface)
+		pt, ok := tgt.t.Underlying().(*types.Pointer)
+		if !ok {
+			return in.newErr("json: Unmarshal(non-pointer)", nil)
+		}
+		pos := 0
+		v, ok := in.decodeJSON(pt.Elem(), in.sliceBytes(data), &pos)
+		if !ok || pos != len(data) {
+			return in.newErr("json: cannot unmarshal", nil)
+		}
+		store(pt.Elem(), tgt.v.(*value), v)
+		return iface{}
+	})
+	e.reg("k8s.io/apimachinery/pkg/api/errors.NewNotFound", func(in *interp, fr *frame, a []value) value {
+		// *StatusError; only its identity as "some non-nil error" matters to the code under check
+		return &opaque{name: "apierrors.NotFound"}
+	})
+}
+
+// ---------------- client-go leader election: one acquire attempt ----------------
+
+func (in *interp) invoke(fr *frame, recv iface, name string, args ...value) value {
+	if recv.t == nil {
+		panic(rtPanic("method %s invoked on nil interface", name))
+	}
+	ms := in.prog.MethodSets.MethodSet(recv.t)
+	for i := 0; i < ms.Len(); i++ {
+		if ms.At(i).Obj().Name() == name {
+			fn := in.prog.MethodValue(ms.At(i))
+			return in.call(fr, 0, fn, append([]value{recv.v}, args...))
+		}
+	}
+	panic(pathEnd{kind: "error", msg: "invoke: no method " + name})
+}
+
+func registerElection(e *Engine) {
+	// RunOrDie: model of one successful pass of the elector: Get; Create if the record is
+	// missing else Update; on success OnStartedLeading(ctx) is called; then it returns
+	// (the renew loop is not modelled).
+	e.reg("k8s.io/client-go/tools/leaderelection.RunOrDie", func(in *interp, fr *frame, a []value) value {
+		lec := a[1].(structure)
+		lock := lec[0].(iface)
+		cb := lec[4].(structure)
+		recT := in.eng.namedType("k8s.io/client-go/tools/leaderelection/resourcelock", "LeaderElectionRecord")
+		rec := in.zero(recT).(structure)
+		rec[0] = in.invoke(fr, lock, "Identity")
+		rec[1] = in.mkInt(8)
+		got := in.invoke(fr, lock, "Get").(tuple)
+		var err value
+		if in.isNil(got[1]) {
+			err = in.invoke(fr, lock, "Update", rec)
+		} else {
+			err = in.invoke(fr, lock, "Create", rec)
+		}
+		if in.isNil(err) {
+			ctxv, _ := in.newCtx(nil)
+			in.call(fr, 0, cb[0], []value{ctxv})
+		}
+		return nil
+	})
 }
